@@ -62,10 +62,13 @@ static struct elem *new_elem(int id, int key)
     return e;
 }
 
+static int sortdir[2] = { 1, -1 };
 static int cmp_key(const void *a, const void *b, void *p)
 {
     const struct elem *x = a, *y = b;
-    VRT_CHECK(p == (void *)&nkeys, "slist.sort.cmp-priv", "comparison called with wrong priv %p", p);
+    /* the priv pointer carries the sort direction: the same function sorts ascending or descending */
+    VRT_CHECK(p == (void *)&sortdir[0] || p == (void *)&sortdir[1], "slist.sort.cmp-priv", "comparison called with wrong priv %p", p);
+    if (*(const int *)p < 0) { const struct elem *t = x; x = y; y = t; }
     VRT_CHECK(x->magic == MAGIC && y->magic == MAGIC, "slist.sort.cmp-non-element",
               "comparison called with a non-element");
     /* only the sign is specified: the magnitude is unrelated to the key distance */
@@ -294,8 +297,9 @@ static int st_apply(uint32_t op, int audit)
         static int gotn;
         const struct cstl_slist_node *n;
         vrt_state(Mn[l1] <= 1 ? "short" : "nonempty");
-        VRT_OP1("slist.sort", "l%ld", l1);
-        cstl_slist_sort(&L[l1], cmp_key, &nkeys);
+        VRT_OP2("slist.sort", "l%ld %ld(0 ascending, 1 descending)", l1, key & 1);
+        cstl_slist_sort(&L[l1], cmp_key, &sortdir[key & 1]);
+        if (key & 1) VRT_COUNT("op.sort.descending");
         (void)w;
         /* read the new order through the links, bounded by the reference length */
         gotn = 0;
@@ -305,7 +309,8 @@ static int st_apply(uint32_t op, int audit)
         for (i = 0; i < gotn; i++) {
             VRT_CHECK(got[i]->magic == MAGIC && got[i]->where[cls[l1]] == l1, "slist.sort.foreign-element",
                       "element at %d after sort is not a member", i);
-            VRT_CHECK(i == 0 || got[i - 1]->key <= got[i]->key, "slist.sort.unordered", "keys out of order at %d", i);
+            VRT_CHECK(i == 0 || ((key & 1) ? got[i - 1]->key >= got[i]->key : got[i - 1]->key <= got[i]->key), "slist.sort.unordered",
+                      "keys out of order at %d (%s sort)", i, (key & 1) ? "descending" : "ascending");
             got[i]->where[cls[l1]] = -2;         /* mark seen: detects duplicates */
         }
         for (i = 0; i < gotn; i++) got[i]->where[cls[l1]] = l1;
@@ -461,6 +466,7 @@ static int build_alphabet(const struct cscope *s, uint32_t *al)
         al[n++] = OP(K_POP_FRONT, l, 0, 0, 0);
         al[n++] = OP(K_REVERSE, l, 0, 0, 0);
         al[n++] = OP(K_SORT, l, 0, 0, 0);
+        al[n++] = OP(K_SORT, l, 0, 1, 0);
         al[n++] = OP(K_CLEAR, l, 0, 0, 0);
         al[n++] = OP(K_FOREACH, l, 0, 0, NOSTOP);
         for (p = 0; p < s->np; p++) al[n++] = OP(K_FOREACH, l, 0, 0, p);
@@ -517,7 +523,15 @@ static void run_random(uint64_t idx)
         else if (r < 55) op = OP(K_ERASE_AFTER, l, 0, 0, len > 1 ? (vrt_chance(&g, 1, 2) ? len - 2 : (int)vrt_below(&g, len - 1)) : 0);
         else if (r < 68) op = OP(K_POP_FRONT, l, 0, 0, 0);
         else if (r < 74) op = OP(K_REVERSE, l, 0, 0, 0);
-        else if (r < 80) op = OP(K_SORT, l, 0, 0, 0);
+        else if (r < 80) {
+            /* the elements belong to the caller: a key may change while the element is linked; the next sort must see it */
+            if (len > 0 && vrt_chance(&g, 1, 3)) {
+                struct elem *x = M[l][vrt_below(&g, len)];
+                x->key = (x->key + 1 + (nk > 1 ? (int)vrt_below(&g, nk - 1) : 0)) % nk;
+                VRT_COUNT("op.key-changed-while-linked");
+            }
+            op = OP(K_SORT, l, 0, vrt_below(&g, 2), 0);
+        }
         else if (r < 86) op = OP(K_CONCAT, l, l2, 0, 0);
         else if (r < 92) op = OP(K_SWAP, l, l2, 0, 0);
         else if (r < 98) op = OP(K_FOREACH, l, 0, 0, (len && vrt_chance(&g, 1, 2)) ? (int)vrt_below(&g, len) : NOSTOP);
